@@ -273,16 +273,8 @@ func (ic *inferContext) inferRelTypesFromPremise(premises []ast.Term, state *inf
 		if tpe.Equals(symbols.EmptyType) {
 			return nil, fmt.Errorf("type mismatch %v : left type %v right type %v", premise, leftTpe, rightTpe)
 		}
-		if leftVar, ok := t.Left.(ast.Variable); ok {
-			if err := nextState.addOrRefine(leftVar, tpe); err != nil {
-				return nil, err
-			}
-		}
-		if rightVar, ok := t.Right.(ast.Variable); ok {
-			if err := nextState.addOrRefine(rightVar, tpe); err != nil {
-				return nil, err
-			}
-		}
+		// An inequality only needs comparable operands. It holds for every value of a variable
+		// outside the other operand's type, so it does not narrow the type of either variable.
 		return []*inferState{nextState}, nil
 	}
 	return nil, fmt.Errorf("unexpected state %v", premise)
